@@ -391,6 +391,10 @@ def run(chk):
         chk.ok("C09.errors", pf[0][0], "body parser errors are set on the payload stream (the reader sees a payload error, not silence)")
     else:
         chk.violation("C09.errors", hp, "self._payload_parser.feed_data(...)", "except Exception: set_exception(payload, ...)", "a failing body parse is not reported on the stream")
+    # ... and the reader that is about to wait again sees it (shared with C08)
+    from rules import C08
+
+    chk.include(C08.run, ("C08.wake.exception",), ("C08.wake.exception", "C09.errors.seen"))
 
 
 def resume_rules(chk, repo):
